@@ -1558,7 +1558,11 @@ impl<T: Storage> Raft<T> {
         // it's safe to start campaign.
         let low = match self.raft_log.unstable.maybe_first_index() {
             Some(idx) => idx,
-            None => self.raft_log.applied + 1,
+            // After a snapshot was handed to the application and stabilized, `applied`
+            // stays behind the first index until the application reports the apply
+            // (`advance_apply_to`); everything below the first index is covered by
+            // the snapshot, whose configuration is already in effect.
+            None => cmp::max(self.raft_log.applied + 1, self.raft_log.first_index()),
         };
         let high = self.raft_log.committed + 1;
         let ctx = GetEntriesContext(GetEntriesFor::TransferLeader);
